@@ -33,7 +33,9 @@ CPLX_PRE = ['mk.dom\t0\ta\t5\t-\t-', 'mk.dom\t0\tb\t5\t-\t-']
 CPLX_OPS = ['mk.cplx\t0\tX\t-\th0 h1 + h0\t(.+)', 'mk.cplx\t0\tX\t-\th0 + h0 h1\t(+).', 'mk.cplx\t0\t-\t-\th0 h1 + h0\t(.+)',
             'mk.cplx\t0\t-\t-\th0 + h0 h1\t(+).', 'mk.cplx\t0\tY\t-\th0 h1 + h0\t(.+)', 'mk.cplx\t0\tX\t-\th1\t.',
             'mk.cplx\t0\tX\t-\tNONE\t', 'mk.cplx\t0\tZ\t-\tNONE\t', 'mk.cplx\t0\tc1\t-\th0 + h0\t(+)',
-            'mk.cplx\t0\t-\t-\th0 + h0\t(+)', 'mk.cplx\t0\t-\t-\th1\t.', 'drop\th2', 'drop\th3']
+            'mk.cplx\t0\t-\t-\th0 + h0\t(+)', 'mk.cplx\t0\t-\t-\th1\t.', 'drop\th2', 'drop\th3',
+            # periodic strand order with a structure that is NOT invariant under the period
+            'mk.cplx\t0\tX\t-\th0 h1 + h0 h1\t(.+.)', 'mk.cplx\t0\tX\t-\th0 h1 + h0 h1\t.(+).', 'mk.cplx\t0\tP\t-\th0 h1 + h0 h1\t.(+).']
 MR_PRE = CPLX_PRE + ['mk.cplx\t0\tA\t-\th0\t.', 'mk.cplx\t0\tB\t-\th1\t.', 'mk.cplx\t0\tC\t-\th0 h1\t..']
 MR_OPS = ['mk.macro\t0\t-\th2 h3', 'mk.macro\t0\t-\th3 h2', 'mk.macro\t0\tB\th2 h3', 'mk.macro\t0\tA\th2', 'mk.macro\t0\tA\tNONE',
           'mk.macro\t0\tQ\tNONE', 'mk.macro\t0\tQ\th2 h3',
@@ -84,7 +86,7 @@ def random_history(iw, rng, length):
     kinds = {}          # handle -> kind
     names = ['a', 'a*', 'b', 'b*', 'x1', 'd1', 'd2', 'c1', 'c2', 'X', 'Y', 'S', 'A']
     structs = [('1', '.'), ('2', '..'), ('1+1', '(+)'), ('2+1', '(.+)'), ('1+2', '(+).'), ('1+1', '.+.'), ('1+1+1', '(+.+)'),
-               ('2+2', '((+))'), ('1+1+1', '.+.+.')]
+               ('2+2', '((+))'), ('1+1+1', '.+.+.'), ('2+2', '(.+.)'), ('2+2', '.(+).'), ('1+1+1+1', '(+)+.+.'), ('1+1+1+1', '.+.+(+)')]
     for _ in range(length):
         held = {h: kinds.get(h) for h in iw.held}
         doms = [h for h, k in held.items() if k == 'dom']
